@@ -264,10 +264,10 @@ def render(c, v, t, st, fault=None, path=()):
         return fault[2]
     r = st.r
     k = v[0]
-    if k == "alias":
-        return render(c, v[2], c.tdef(t).alias if t["type"] == "reference" else t, st, fault, path)
     if t["type"] == "external":
         return render(c, v, t["external"]["fallback"], st, fault, path)
+    if k == "alias":
+        return render(c, v[2], c.tdef(t).alias if t["type"] == "reference" else t, st, fault, path)
     if k == "opt":
         return "null" if v[1] is None else render(c, v[1], t["optional"]["itemType"], st, fault, path + ("some",))
     if k in ("list", "set"):
@@ -440,10 +440,10 @@ def check_key(kv, got_key, where):
 def check(c, v, t, got, where="$"):
     """Raises Mismatch unless `got` (parsed JSON) is the canonical wire form of v."""
     k = v[0]
-    if k == "alias":
-        return check(c, v[2], c.tdef(t).alias if t["type"] == "reference" else t, got, where)
     if t["type"] == "external":
         return check(c, v, t["external"]["fallback"], got, where)
+    if k == "alias":
+        return check(c, v[2], c.tdef(t).alias if t["type"] == "reference" else t, got, where)
     if k == "opt":
         if v[1] is None:
             if got is not None:
@@ -547,11 +547,11 @@ WRONG_KIND = {
 def fault_sites(c, v, t, path=()):
     """Yields (path, kind, payload, class) for every applicable single fault inside v."""
     k = v[0]
-    if k == "alias":
-        yield from fault_sites(c, v[2], c.tdef(t).alias if t["type"] == "reference" else t, path)
-        return
     if t["type"] == "external":
         yield from fault_sites(c, v, t["external"]["fallback"], path)
+        return
+    if k == "alias":
+        yield from fault_sites(c, v[2], c.tdef(t).alias if t["type"] == "reference" else t, path)
         return
     if k == "opt":
         if v[1] is not None:
@@ -597,6 +597,10 @@ def fault_sites(c, v, t, path=()):
         return
     if k == "union":
         d = c.lab.by_name[v[1]]
+        if not c.exhaustive:
+            # two *undeclared* names that disagree, in both member orders
+            yield (path, "replace", "{\"type\":\"zzMystery\",\"zzEnigma\":{\"a\":1}}", "union-type-member-mismatch/undeclared")
+            yield (path, "replace", "{\"zzEnigma\":{\"a\":1},\"type\":\"zzMystery\"}", "union-type-member-mismatch/undeclared")
         if v[2] is None:
             return
         for txt in ["5", "\"x\"", "[1]"]:
